@@ -834,7 +834,8 @@ func (c *Client) Call(ctx context.Context, procedure string, options wamp.Dict, 
 		if err != nil {
 			if abortMsg != nil {
 				c.sess.Send() <- abortMsg
-				c.sess.Close()
+				// Stop receiving; the peer itself is closed, once, by Close().
+				c.sess.EndRecv(nil)
 			}
 
 			return nil, err
@@ -981,7 +982,8 @@ func (c *Client) CallProgressive(ctx context.Context, procedure string, sendProg
 		if err != nil {
 			if abortMsg != nil {
 				c.sess.Send() <- abortMsg
-				c.sess.Close()
+				// Stop receiving; the peer itself is closed, once, by Close().
+				c.sess.EndRecv(nil)
 			}
 
 			return nil, err
@@ -1860,7 +1862,8 @@ func (c *Client) runHandleInvocation(msg *wamp.Invocation) {
 						},
 					}
 					c.sess.Send() <- &abortMsg
-					c.sess.Close()
+					// Stop receiving; the peer itself is closed, once, by Close().
+					c.sess.EndRecv(nil)
 					return
 				}
 
